@@ -32,7 +32,11 @@ struct C16 : Harness {
         auto dataop = [&](bool inv) {
             Op e = mkop(opn(kind, ctr ? "encrypt" : kind == PM ? "crypt" : "enc")); e.set("s", 0);
             if (inv) e.set("inv", 1);
-            Bytes d(data.begin(), data.begin() + 4 * bs);
+            // probes of the inert object come in every size class - "nothing to do" (0 bytes), a byte, a block, several
+            // blocks: the answer is 0 for all of them; calls on the working object use four blocks
+            size_t nbytes = 4 * (size_t)bs;
+            if (inv) nbytes = ctr ? (size_t)*rc::gen::element(0, 0, 1, bs, 4 * bs, 7 * bs + 3) : (size_t)bs * (size_t)*rc::gen::element(0, 0, 1, 4, 7);
+            Bytes d(data.begin(), data.begin() + nbytes);
             e.set("in", d);
             if (kind == PM) e.set("tweak", d);
             return e;
@@ -71,7 +75,7 @@ struct C16 : Harness {
             int be = *rc::gen::elementOf(bes);
             int prior = *irange(0, 5);
             int failat = *rc::gen::weightedOneOf<int>({{6, rc::gen::just(1)}, {3, rc::gen::just(2)}, {1, rc::gen::just(3)}});
-            build(p, kind, be, failat, prior, *irange(1, 254), *gbytes(32), *gdata(64));
+            build(p, kind, be, failat, prior, *irange(1, 254), *gbytes(32), *gdata(128));
             return p;
         });
     }
